@@ -46,6 +46,7 @@ class Recorder:
         self.notes = []
         self.iter_evals = []       # number of likelihood calls per add_samples
         self.explored_seen = bool(sampler.explored)
+        self.full = False          # full state strings (debugging / replay) or compact fingerprints
         self.cur_rounds = None
         self._install()
 
@@ -161,7 +162,14 @@ class Recorder:
             serial_row.append(arg)
 
         def lst(l):
-            return '[' + ','.join(str(int(x)) for x in l) + ']'
+            """the driver's compact fingerprint of a list: length, sum and position-weighted sum modulo 2^64"""
+            if self.full:
+                return '[' + ','.join(str(int(x)) for x in l) + ']'
+            a = np.array([int(x) % (1 << 64) for x in l], dtype=np.uint64)
+            with np.errstate(over='ignore'):
+                sm = int(np.sum(a, dtype=np.uint64)) if len(a) else 0
+                w = int(np.sum(a * np.arange(1, len(a) + 1, dtype=np.uint64), dtype=np.uint64)) if len(a) else 0
+            return '%d:%d:%d' % (len(a), sm, w)
 
         def ids3(points, log_l, blobs):
             p = [self.pid(r, create=False) for r in points]
@@ -206,7 +214,7 @@ class Recorder:
                 g('shell_end_exp'), g('shell_n')))
         tp, tl, tb = ids3(s.points_t, s.log_l_t, s.blobs_t)
         st = ' ; '.join(shells) + ' # t=%s %s %s %s # ex=%s d=%s nl=%d' % (
-            lst(tp), lst(tl), lst(tb), lst(s.shell_t), 'true' if s.explored else 'false',
+            lst(tp), lst(tl), lst(tb), lst(s.shell_t if self.full else [int(x) + 1 for x in s.shell_t]), 'true' if s.explored else 'false',
             'true' if s._discard_exploration else 'false', int(s.n_like))
         return st
 
@@ -223,7 +231,7 @@ class Recorder:
                     masks[j] += (1 << b)
         cube = np.all((rows >= 0) & (rows < 1), axis=1) if len(rows) else []
         pts = ' '.join('%d:%d:%d' % (i, masks[i], 1 if cube[i] else 0) for i in range(len(rows)))
-        return 'core %d | P %s | %s' % (self.s.n_batch, pts, ' | '.join(self.ops))
+        return '%s %d | P %s | %s' % ('corefull' if self.full else 'core', self.s.n_batch, pts, ' | '.join(self.ops))
 
 
 INV_OK = 'inshells=true tlast=true nodup=true aligned=true counts=true shape=true'
